@@ -122,6 +122,12 @@ def _atom_case(E):
     for k in keys:
         f = formulas.formula(P[k])
         check_formula(E, 'atom[%s]' % k, f, [(1, P[k])])
+    # every empty formula is a fresh object: extending one must not show up in the next
+    for spelling in ('', None, ' '):
+        acc = formulas.formula(spelling) if spelling is not None else formulas.formula()
+        acc += formulas.formula([(E.real('acc_c', lo=0, lo_open=True, hi=1000), P['X'])])
+        again = formulas.formula(spelling) if spelling is not None else formulas.formula()
+        E.fact('empty_formula_is_fresh[%r]' % (spelling,), again.atoms == {} and again is not acc, note=repr(again.atoms))
     e = formulas.formula()
     E.fact('empty.atoms', e.atoms == {})
     E.fact('empty.mass', e.mass == 0)
@@ -194,7 +200,7 @@ def cases(tier):
     th = tier == 'thorough'
     mp = 64 if not th else 512
     out = []
-    shapes = ['pair', 'group', 'repeat_depth'] if not th else list(SHAPES)
+    shapes = ['pair', 'group', 'repeat_depth', 'three'] if not th else list(SHAPES)
     for sn in shapes:
         for how in ('sequence', 'mapping', 'copy', 'Formula'):
             out.append(Case('construct[%s|%s]' % (sn, how), _construct(sn, how), max_paths=mp, timeout_ms=30000))
